@@ -41,6 +41,13 @@ macro_rules! both {
         let pr = r.partial_cmp(l);
         if pr != Some($ord.reverse()) { $cx.bad(what("partial_cmp (reversed)"), format!("{:?}", pr), format!("{:?}", Some($ord.reverse()))); }
         if (pc == Some(Ordering::Equal)) != (*l == *r) { $cx.bad(what("== vs partial_cmp"), format!("eq={} cmp={:?}", *l == *r, pc), "coherent".into()); }
+        // the operators have provided implementations that an impl may override: each must be std's answer, in both operand orders
+        let o = $ord;
+        let want = [o == Ordering::Less, o != Ordering::Greater, o == Ordering::Greater, o != Ordering::Less];
+        let got = [*l < *r, *l <= *r, *l > *r, *l >= *r];
+        if got != want { $cx.bad(what("<, <=, >, >="), format!("{:?}", got), format!("{:?}", want)); }
+        let gotr = [*r > *l, *r >= *l, *r < *l, *r <= *l];
+        if gotr != want { $cx.bad(what("(reversed) >, >=, <, <="), format!("{:?}", gotr), format!("{:?}", want)); }
     }};
 }
 
